@@ -50,7 +50,8 @@ CONSTANTS
   EmitRes,
   EmitSmall,  \* ... or whose number of layers is at most EmitSmall (small circuits are all emitted)
   EmitFilter  \* "all", or "nonsd": only states with a smooth, decomposable, NOT structured-
-              \* decomposable base circuit (rare among all circuits: emitted without sampling)
+              \* decomposable base circuit (rare among all circuits: emitted without sampling);
+              \* "ar3": only circuits with a product layer of arity >= 3 (hash-sampled)
 
 VARIABLES layers, bases, ops, phase, ver, saved, hist
 vars == <<layers, bases, ops, phase, ver, saved, hist>>
@@ -511,7 +512,9 @@ StructBehaviour ==
 MixHash == (((StructHash * 7919 + 4273) % 100003) * 31 + StructHash) % 100003
 NonSDBase == \E b \in 1..NB : LET r == BaseReach(b) IN
                 SmoothOn(layers, r) /\ DecompOn(layers, r) /\ ~SDOn(layers, r)
+HasArity3Product == \E i \in 1..NL : layers[i].kind \in ProdKinds /\ Len(layers[i].ins) >= 3
 HashOK == IF EmitFilter = "nonsd" THEN NonSDBase
+          ELSE IF EmitFilter = "ar3" THEN HasArity3Product /\ (MixHash % EmitMod) = (EmitRes % EmitMod)
           ELSE NL <= EmitSmall \/ (MixHash % EmitMod) = (EmitRes % EmitMod)
 Emitting ==
   /\ Len(ops) \in EmitOps
